@@ -18,3 +18,4 @@ def rules(ctx):
     S.c05_r1_abort_path(ctx)
     S.c02_r4_who_frees(ctx)
     S.c02_r5_free_leaves_caches(ctx)
+    S.tracker_state_rules(ctx)
